@@ -12,19 +12,18 @@ import (
 	"sort"
 	"strconv"
 	"sync"
-	"time"
+	"sync/atomic"
 
 	"go.pennock.tech/tabular/auto"
 	"go.pennock.tech/tabular/texttable/decoration"
 )
 
 // Registry mode (C17). Input lines:
-//   {"procs": [[op...]...], "order": [[p, i]...]}   forced schedule (from MCRegistry)
+//   {"procs": [[op...]...], "order": [[p, i]...]}   forced schedule (a linearization order of MCRegistry)
 //   {"stress": {"g": 8, "n": 200, "seed": 1}}       free-running goroutines
-//   {"probe": 1}                                     mutual-exclusion probe
-// Output: one NDJSON line per registry operation in the order in which the
-// operations took effect (the hook inside the critical section stamps a global
-// sequence number under the registry's own lock), validated by RegistryTrace.tla.
+// Output: two NDJSON lines per registry operation, "call" and "ret", stamped by one atomic clock immediately
+// before the call and immediately after its return, sorted by stamp. Nothing inside the library is
+// instrumented; RegistryTrace.tla validates the log knowing only this real-time order.
 
 func decID(d decoration.Decoration) string {
 	if d == decoration.EmptyDecoration {
@@ -40,85 +39,69 @@ func decFromToken(tok string) decoration.Decoration {
 	return d
 }
 
-func goid() int {
-	var buf [64]byte
-	n := runtime.Stack(buf[:], false)
-	// "goroutine 123 [running]:..."
-	f := bytes.Fields(buf[:n])
-	id, _ := strconv.Atoi(string(f[1]))
-	return id
+var regClock atomic.Int64
+
+// regLog is one goroutine's own list of lines (no shared structure is touched between the two stamps of a
+// call, so the driver adds no synchronisation that could hide a race in the library).
+type regLog struct {
+	g     int
+	lines []M
 }
 
-type hookEvent struct {
-	seq  int
-	gid  int
-	ev   string
-	name string
-}
-
-// The recorder has its own mutex: the hook runs inside the registry's critical
-// section, but lookups and listings may legitimately share that section with each
-// other (a readers/writer lock), so the registry's lock is not relied upon here.
-// A sequence number is still a valid linearization stamp: it is taken while the
-// operation holds its lock, and a registration excludes everything else.
-type regRecorder struct {
-	seq    int
-	events []hookEvent
-	hold   map[int]chan struct{}
-	held   chan int
-	mu     sync.Mutex
-}
-
-func (r *regRecorder) hook(ev, name string) {
-	g := goid()
-	r.mu.Lock()
-	r.seq++
-	r.events = append(r.events, hookEvent{r.seq, g, ev, name})
-	ch := r.hold[g]
-	r.mu.Unlock()
-	if ch != nil {
-		r.held <- g
-		<-ch // stay inside the critical section until released
+func (rl *regLog) do(op M, prefix string) {
+	name := ""
+	if _, ok := op["name"]; ok {
+		name = prefix + opStr(op, "name")
 	}
-}
-
-type regCall struct {
-	ev, name, did string
-	res           interface{}
-	sorted        int
-	skip          bool // the registry was read through another API (auto.ListStyles): pair the hook event, log nothing
-}
-
-func doRegOp(op M, prefix string) regCall {
-	switch opStr(op, "op") {
+	kind := opStr(op, "op")
+	call := M{"ev": "call", "op": kind, "g": rl.g, "name": name}
+	ret := M{"ev": "ret", "op": kind, "g": rl.g, "name": name}
+	switch kind {
 	case "register":
 		d := decFromToken(prefix + opStr(op, "d"))
-		decoration.RegisterDecorationName(prefix+opStr(op, "name"), d)
-		return regCall{ev: "register", name: prefix + opStr(op, "name"), did: decID(d)}
+		call["did"] = decID(d)
+		call["t"] = regClock.Add(1)
+		decoration.RegisterDecorationName(name, d)
+		ret["t"] = regClock.Add(1)
 	case "named":
-		d := decoration.Named(prefix + opStr(op, "name"))
-		return regCall{ev: "named", name: prefix + opStr(op, "name"), res: decID(d)}
+		call["t"] = regClock.Add(1)
+		d := decoration.Named(name)
+		ret["t"] = regClock.Add(1)
+		ret["res"] = decID(d)
 	case "list":
+		call["t"] = regClock.Add(1)
 		l := decoration.RegisteredDecorationNames()
-		ok := sort.StringsAreSorted(l)
-		for i := 1; i < len(l); i++ {
-			if l[i] == l[i-1] {
-				ok = false
-			}
-		}
+		ret["t"] = regClock.Add(1)
 		il := make([]interface{}, len(l))
 		for i, s := range l {
 			il[i] = s
 		}
-		return regCall{ev: "list", res: il, sorted: b2i(ok)}
+		ret["res"] = il
+		ret["sorted"] = b2i(sort.StringsAreSorted(l))
+	case "styles":
+		// (read through another API while the registry is busy; its result is checked at quiescence)
+		auto.ListStyles()
+		return
+	default:
+		derr("registry op %v", op["op"])
 	}
-	derr("registry op %v", op["op"])
-	return regCall{}
+	rl.lines = append(rl.lines, call, ret)
+}
+
+func flushRegLogs(out *bufio.Writer, scen string, logs []*regLog) int {
+	var all []M
+	for _, rl := range logs {
+		all = append(all, rl.lines...)
+	}
+	sort.Slice(all, func(i, j int) bool { return all[i]["t"].(int64) < all[j]["t"].(int64) })
+	for _, ln := range all {
+		ln["scen"] = scen
+		writeLine(out, ln)
+	}
+	return len(all) / 2
 }
 
 func runRegistryMode(in *os.File, out *bufio.Writer) {
-	rec := &regRecorder{hold: map[int]chan struct{}{}, held: make(chan int, 16)}
-	decoration.VerifHook = rec.hook
 	// The very first contact of this process with the registry may be an application's override of a
 	// built-in name (as from an init function): it must stick.
 	early := []interface{}{}
@@ -132,56 +115,11 @@ func runRegistryMode(in *os.File, out *bufio.Writer) {
 	for _, n := range decoration.RegisteredDecorationNames() {
 		init = append(init, []interface{}{n, decID(decoration.Named(n))})
 	}
-	rec.mu.Lock()
-	rec.events = nil
-	rec.mu.Unlock()
 	writeLine(out, M{"ev": "init", "names": init, "early": early})
-
-	// flush: pair the hook events (in seq order) with the calls of each goroutine
-	flush := func(scen string, calls map[int][]regCall) {
-		next := map[int]int{}
-		rec.mu.Lock()
-		evs := rec.events
-		rec.events = nil
-		rec.mu.Unlock()
-		sort.Slice(evs, func(i, j int) bool { return evs[i].seq < evs[j].seq })
-		for _, e := range evs {
-			cs := calls[e.gid]
-			k := next[e.gid]
-			if k >= len(cs) {
-				derr("hook event without a call (goroutine %d)", e.gid)
-			}
-			next[e.gid] = k + 1
-			c := cs[k]
-			if c.ev != e.ev {
-				derr("hook event %s does not match call %s", e.ev, c.ev)
-			}
-			if c.skip {
-				continue
-			}
-			line := M{"ev": c.ev, "scen": scen, "g": e.gid, "name": c.name, "seq": e.seq}
-			switch c.ev {
-			case "register":
-				line["did"] = c.did
-			case "named":
-				line["res"] = c.res
-			case "list":
-				line["res"] = c.res
-				line["sorted"] = c.sorted
-			}
-			writeLine(out, line)
-		}
-		for g, cs := range calls {
-			if next[g] != len(cs) {
-				// a call that never reached its hook: the operation bypassed the critical section
-				writeLine(out, M{"ev": "nohook", "scen": scen, "g": g, "missing": len(cs) - next[g]})
-			}
-		}
-	}
 
 	sc := bufio.NewScanner(in)
 	sc.Buffer(make([]byte, 1<<20), 1<<26)
-	n := 0
+	n, nops := 0, 0
 	for sc.Scan() {
 		line := bytes.TrimSpace(sc.Bytes())
 		if len(line) == 0 {
@@ -224,43 +162,40 @@ func runRegistryMode(in *os.File, out *bufio.Writer) {
 				i, _ := strconv.Atoi(string(oo[1].(json.Number)))
 				pos[[2]int{p, i}] = k
 			}
-			calls := map[int][]regCall{}
-			var cmu sync.Mutex
+			logs := make([]*regLog, len(procs))
 			var wg sync.WaitGroup
 			for pi, pr := range procs {
 				wg.Add(1)
-				go func(p int, ops []interface{}) {
+				logs[pi] = &regLog{g: pi + 1}
+				go func(p int, ops []interface{}, rl *regLog) {
 					defer wg.Done()
-					g := goid()
 					for i, o := range ops {
-						k := pos[[2]int{p, i + 1}]
+						k, ok := pos[[2]int{p, i + 1}]
+						if !ok {
+							derr("forced schedule lacks (%d, %d)", p, i+1)
+						}
 						<-turn[k]
-						c := doRegOp(o.(map[string]interface{}), prefix)
-						cmu.Lock()
-						calls[g] = append(calls[g], c)
-						cmu.Unlock()
+						rl.do(o.(map[string]interface{}), prefix)
 						close(turn[k+1])
 					}
-				}(pi+1, pr.([]interface{}))
+				}(pi+1, pr.([]interface{}), logs[pi])
 			}
 			close(turn[0])
 			wg.Wait()
-			flush(scen, calls)
+			nops += flushRegLogs(out, scen, logs)
 		case sc["stress"] != nil:
 			st := opMap(sc, "stress")
 			G, N := opInt(st, "g"), opInt(st, "n")
 			seed := int64(opInt(st, "seed"))
-			calls := map[int][]regCall{}
-			var cmu sync.Mutex
+			logs := make([]*regLog, G)
 			var wg sync.WaitGroup
 			start := make(chan struct{})
 			for p := 0; p < G; p++ {
 				wg.Add(1)
-				go func(p int) {
+				logs[p] = &regLog{g: p + 1}
+				go func(p int, rl *regLog) {
 					defer wg.Done()
 					rng := rand.New(rand.NewSource(seed*1000 + int64(p)))
-					g := goid()
-					var mine []regCall
 					<-start
 					for i := 0; i < N; i++ {
 						name := fmt.Sprintf("n%d", rng.Intn(4))
@@ -271,89 +206,86 @@ func runRegistryMode(in *os.File, out *bufio.Writer) {
 						case r < 7:
 							op = M{"op": "named", "name": name}
 						case r < 8:
-							auto.ListStyles() // (its result is checked once the run is quiescent, below)
-							mine = append(mine, regCall{ev: "list", skip: true})
-							continue
+							op = M{"op": "styles"}
 						default:
 							op = M{"op": "list"}
 						}
-						mine = append(mine, doRegOp(op, prefix))
+						rl.do(op, prefix)
 						if rng.Intn(4) == 0 {
 							runtime.Gosched()
 						}
 					}
-					cmu.Lock()
-					calls[g] = mine
-					cmu.Unlock()
-				}(p)
+				}(p, logs[p])
 			}
 			close(start)
 			wg.Wait()
-			flush(scen, calls)
-			// quiescent: the style listing must now show every registered name
+			// quiescent read-back: once the registrations have finished, the latest one is what every name
+			// denotes, and both listings show every registered name
+			q := &regLog{g: G + 1}
+			for i := 0; i < 4; i++ {
+				q.do(M{"op": "named", "name": fmt.Sprintf("n%d", i)}, prefix)
+			}
+			q.do(M{"op": "list"}, prefix)
+			nops += flushRegLogs(out, scen, append(logs, q))
 			ls := auto.ListStyles()
-			rec.mu.Lock()
-			rec.events = nil // (the listing's own hook event)
-			rec.mu.Unlock()
 			il := make([]interface{}, len(ls))
 			for i, x := range ls {
 				il[i] = x
 			}
 			writeLine(out, M{"ev": "styles", "scen": scen, "res": il, "sorted": b2i(sort.StringsAreSorted(ls))})
-		case sc["probe"] != nil:
-			// A is held inside its critical section; B must neither reach its own
-			// critical section nor return until A is released.
-			for _, aop := range []M{{"op": "register", "name": "pa", "d": "pa"}, {"op": "named", "name": "pa"}, {"op": "list"}} {
-				for _, bop := range []M{{"op": "register", "name": "pb", "d": "pb"}, {"op": "named", "name": "pa"}, {"op": "list"}} {
-					calls := map[int][]regCall{}
-					var cmu sync.Mutex
-					release := make(chan struct{})
-					aReady := make(chan int, 1)
-					aDone := make(chan struct{})
+		case sc["burst"] != nil:
+			// many short rounds: one goroutine registers a burst of fresh names while others list the styles;
+			// after joining, the style listing must show every one of them (C19 under concurrency)
+			st := opMap(sc, "burst")
+			R, K := opInt(st, "rounds"), opInt(st, "names")
+			for r := 0; r < R; r++ {
+				rscen := fmt.Sprintf("%s.%d", scen, r)
+				logs := []*regLog{{g: 1}}
+				var wg sync.WaitGroup
+				stop := make(chan struct{})
+				start := make(chan struct{})
+				for p := 0; p < 2; p++ {
+					wg.Add(1)
 					go func() {
-						g := goid()
-						rec.mu.Lock()
-						rec.hold[g] = release
-						rec.mu.Unlock()
-						aReady <- g
-						c := doRegOp(aop, prefix)
-						cmu.Lock()
-						calls[g] = append(calls[g], c)
-						cmu.Unlock()
-						close(aDone)
+						defer wg.Done()
+						<-start
+						for {
+							select {
+							case <-stop:
+								return
+							default:
+							}
+							auto.ListStyles()
+							runtime.Gosched()
+						}
 					}()
-					ga := <-aReady
-					<-rec.held // A is now inside its critical section
-					bDone := make(chan struct{})
-					go func() {
-						g := goid()
-						c := doRegOp(bop, prefix)
-						cmu.Lock()
-						calls[g] = append(calls[g], c)
-						cmu.Unlock()
-						close(bDone)
-					}()
-					blocked := 1
-					select {
-					case <-bDone:
-						blocked = 0
-					case <-time.After(40 * time.Millisecond):
-					}
-					rec.mu.Lock()
-					delete(rec.hold, ga)
-					rec.mu.Unlock()
-					close(release)
-					<-aDone
-					<-bDone
-					// a registration excludes every other operation; two reads may overlap
-					must := b2i(aop["op"] == "register" || bop["op"] == "register")
-					writeLine(out, M{"ev": "probe", "scen": scen, "a": aop["op"], "b": bop["op"], "blocked": blocked, "must": must})
-					flush(scen, calls)
 				}
+				wg.Add(1)
+				go func(rl *regLog) {
+					defer wg.Done()
+					<-start
+					for k := 0; k < K; k++ {
+						rl.do(M{"op": "register", "name": fmt.Sprintf("b%d_%d", r, k), "d": fmt.Sprintf("b%d_%d", r, k)}, prefix)
+						runtime.Gosched()
+					}
+					close(stop)
+				}(logs[0])
+				close(start)
+				wg.Wait()
+				nops += flushRegLogs(out, rscen, logs)
+				ls := auto.ListStyles()
+				il := make([]interface{}, len(ls))
+				for i, x := range ls {
+					il[i] = x
+				}
+				writeLine(out, M{"ev": "styles", "scen": rscen, "res": il, "sorted": b2i(sort.StringsAreSorted(ls))})
 			}
 		default:
 			derr("registry mode: unknown line")
 		}
 	}
-	fmt.Fprintf(os.Stderr, "vdrive: {\"scenarios\": %d, \"ops\": %d}\n", n, rec.seq)
+	if err := sc.Err(); err != nil {
+		fatal(err)
+	}
+	fmt.Fprintf(os.Stderr, "vdrive: {\"scenarios\": %d, \"ops\": %d}\n", n, nops)
 }
